@@ -164,6 +164,9 @@ func runC05(c *Ctx) {
 		}
 		R.Ob("(*Conn).handle/BDAT answered only by handleBdat", c.P.Pos(hf.Pos()), len(v) == 0, d)
 	}
+	// a chunk thrown away for exceeding the size limit ends the message: what the backend reads up to end-of-file is
+	// the concatenation of ALL chunks, never the accepted ones around a hole
+	c.obFollow("552 then reset", f, c.direct("reply:552"), []string{lReset}, nil, nil)
 	// failed pipe copy => remainder discarded
 	for _, cp := range s.Find(f, "copy-to:Conn.bdatPipe") {
 		cp := cp
